@@ -84,6 +84,10 @@ pub struct WorkerReport {
     pub violations: Vec<ReplayFile>,
     pub violations_total: u64,
     pub wall_s: f64,
+    /// (milliseconds, run index) of the slowest runs — wall time never influences a result,
+    /// this is only to find generator shapes that are too expensive
+    pub slowest: Vec<(u64, u64)>,
+    pub minimise_ms: u64,
 }
 
 fn scenario_hash(s: &Scenario) -> u64 {
@@ -197,7 +201,15 @@ fn worker(args: &[String]) -> i32 {
         let mut rng = Rng::split(seed, &property, index);
         let scn = gen_scenario(&property, &mut rng);
         rep.runs += 1;
-        match execute(&scn, ExecOpts::default()) {
+        let t0 = Instant::now();
+        let outcome = execute(&scn, ExecOpts::default());
+        let ms = t0.elapsed().as_millis() as u64;
+        if ms >= 200 {
+            rep.slowest.push((ms, index));
+            rep.slowest.sort_by(|a, b| b.cmp(a));
+            rep.slowest.truncate(5);
+        }
+        match outcome {
             RunOutcome::HarnessError(e) => {
                 if rep.harness_errors.len() < 5 {
                     rep.harness_errors.push(format!("run {}: {}", index, e));
@@ -246,7 +258,9 @@ fn worker(args: &[String]) -> i32 {
                     rep.violations_total += 1;
                     if (rep.violations.len() as u64) < max_violations {
                         let failing = Failing { scenario: scn.clone(), violation: v.clone(), record: rec.clone() };
+                        let t1 = Instant::now();
                         let (min, tests) = minimise(&property, failing);
+                        rep.minimise_ms += t1.elapsed().as_millis() as u64;
                         rep.violations.push(make_replay(&property, seed, index, &scn, &min, tests));
                     }
                 }
